@@ -213,6 +213,7 @@ pub fn run(run: &Run) {
     }
     run.explore_with(&u2::CtlUniverse, judge_v2);
     run.explore_with(&u2::addr_universe(), judge_v2);
+    run.explore_with(&u2::anybyte_universe(), judge_v2);
     run.explore_with(&u2::byte_universe(run.tier.pick(3, 4)), judge_v2);
     run.explore_with(&super::c11::EmbeddedTlv { n: run.tier.pick(6, 8) }, judge_v2);
     run.explore_with(&super::c11::EmbeddedText { n: run.tier.pick(6, 8) }, judge_v2);
